@@ -26,6 +26,7 @@ def cmd(tool="shell", ins=(), outs=(), tag="", reads=(), failif="", failpt="befo
     c["_spell"] = spell or {}; c["_inherit_env"] = inherit_env
     c["_depfmt"] = depstyle          # the format the body actually writes (normally the declared style)
     c["_failhow"] = "exit 1"         # how a failing body dies: "exit N" or "kill -SIG $$"
+    c["_toolspell"] = "shell"        # "clang": the same command declared with `tool: clang` (ClangShellCommand: args + Makefile-style deps only)
     c["_relreads"] = False           # dependency file names the read paths relative to the working directory
     c["_wd"] = ""                    # working-directory attribute (sandbox-relative directory), "" = not set
     c["_multirule"] = False          # Makefile-style dependency file with one rule per read path (+ a continuation line)
@@ -40,7 +41,7 @@ def sigx_of(name, c, idx):
     # the argument vector is an injective function of these fields
     return dict(tag=c["tag"], reads=c["reads"], failif=c["failif"], failpt=c["failpt"], failhow=c["_failhow"], depsok=c["depsok"], idx=idx, keep=c["keep"], mutates=c.get("mutates", ""), rel=c.get("_relreads", False), wd=c.get("_wd", ""), multi=c.get("_multirule", False),
                 extra=c["_extra"], env=c["_env"], depstyle=c["_depstyle"] if c["reads"] else "", depfmt=c["_depfmt"] if c["reads"] else "",
-                inherit=c["_inherit_env"])
+                inherit=c["_inherit_env"], toolspell=c.get("_toolspell", "shell"))
 
 def spec_cmd(name, c, idx):
     d = {k: v for k, v in c.items() if not k.startswith("_")}
@@ -98,7 +99,7 @@ def body_script(name, c, idx, nodes, abs_prefix):
     def P(n):          # file-system path of node n as seen from the command's working directory (the sandbox)
         p = nodes[n]["path"]
         return shlex.quote(p)
-    sx = sigx_of(name, c, idx); sx = {k: v for k, v in sx.items() if k not in ("extra", "env", "inherit", "depstyle")}
+    sx = sigx_of(name, c, idx); sx = {k: v for k, v in sx.items() if k not in ("extra", "env", "inherit", "depstyle", "toolspell")}
     L = (["cd " + shlex.quote(abs_prefix)] if c.get("_wd") else []) + ["V=$(cat .vb)", ": " + shlex.quote(json.dumps(sx, sort_keys=True))]     # the argument vector is an injective function of these fields
     if c["failif"] and c["failpt"] == "before": L.append("if [ -e %s ]; then %s; fi" % (P(c["failif"]), c["_failhow"]))
     def cat(ns):
@@ -175,7 +176,8 @@ def render(desc, nodes, abs_prefix):
     for idx, name in enumerate(desc["order"]):
         c = desc["cmds"][name]; sp = c["_spell"]
         L.append("  %s:" % yq(name))
-        L.append("    tool: %s" % {"shell": "shell", "phony": "phony", "mkdir": "mkdir", "stale": "stale-file-removal", "symlink": "symlink"}[c["tool"]])
+        clang = c["tool"] == "shell" and c.get("_toolspell") == "clang"
+        L.append("    tool: %s" % ("clang" if clang else {"shell": "shell", "phony": "phony", "mkdir": "mkdir", "stale": "stale-file-removal", "symlink": "symlink"}[c["tool"]]))
         if c["tool"] == "symlink":
             L.append("    inputs: " + ylist([R(n) for n in c["ins"]])); L.append("    outputs: " + ylist([R(n) for n in c["outs"]]))
             L.append("    contents: " + yq(c["tag"])); continue
@@ -193,7 +195,8 @@ def render(desc, nodes, abs_prefix):
             if c["_env"]: L.append("    env: {" + ", ".join("%s: %s" % (yq(k), yq(v)) for k, v in c["_env"]) + "}")
             if not c["_inherit_env"]: L.append("    inherit-env: false")
             if c.get("_wd"): L.append("    working-directory: " + yq(abs_prefix + "/" + c["_wd"]))
-            if c["reads"]:
+            if c["reads"] and clang: L.append("    deps: " + yq(name + ".d"))          # (one Makefile-style file, no style attribute)
+            elif c["reads"]:
                 L.append("    deps: " + (yq(name + ".d") if sp.get("deps") != "list" else ylist([name + ".d"])))
                 L.append("    deps-style: " + {"makefile": "makefile", "depinfo": "dependency-info"}[c["_depstyle"]])
             if c["_signature"]: L.append("    signature: " + yq(c["_signature"]))
